@@ -13,11 +13,11 @@ pub fn entry() -> crate::Entry {
 }
 
 /// annotation kinds; `counted` kinds take a count from COUNTS
-pub const KINDS: [(&str, bool); 20] = [
+pub const KINDS: [(&str, bool); 21] = [
     ("merges", true), ("names-global", true), ("names-local", true), ("names-other-sheet", true), ("names-formula", true), ("ext-links", true), ("int-links", true),
     ("comments", true), ("validations", true), ("cond-formats", true), ("filter", false), ("tab-color", false), ("panes", false), ("page-setup", false),
     ("header-footer", false), ("sheet-protection", false), ("book-protection", false), ("visibility", false), ("active-tab", false),
-    ("links-on-merged-cells", true),
+    ("links-on-merged-cells", true), ("tab-color-theme", false),
 ];
 pub const COUNTS: [u32; 3] = [1, 2, 12];
 pub const LAYOUTS: [&str; 3] = ["single-sheet", "first-of-3", "last-of-3"];
@@ -107,6 +107,12 @@ pub fn add_kind(b: &mut Spreadsheet, idx: usize, k: usize, count: u32) {
             }
         }
         "filter" => b.get_sheet_mut(&idx).unwrap().set_auto_filter("A1:D9"),
+        "tab-color-theme" => {
+            // a colour picked from the theme palette: no rgb value at all, a theme index and a tint
+            let c = b.get_sheet_mut(&idx).unwrap().get_tab_color_mut();
+            c.set_theme_index(4);
+            c.set_tint(0.39997558519241921);
+        }
         "tab-color" => {
             b.get_sheet_mut(&idx).unwrap().get_tab_color_mut().set_argb("FF00B050");
         }
